@@ -64,6 +64,18 @@ Proof.
            (ls_map_full_rank_le5 _ _ _ Ha Hb Hc)).
 Qed.
 
+(* ... and for the columns kept by the ls_list and l_list options together (any predicate on the columns):
+   user_ls is a permutation of exactly such a filter (LS_proofs.user_ls_perm_filter) *)
+Corollary ls_map_full_rank_user_filter_le5 : forall ja2 jb2 jc2 pa pb pc p_break ca (keep : Z * Z -> bool),
+  In ja2 [0; 1; 2; 3; 4; 5]%Z -> In jb2 [0; 1; 2; 3; 4; 5]%Z -> In jc2 [0; 1; 2; 3; 4; 5]%Z ->
+  let cols := filter keep (ls_list ja2 jb2 jc2 pa pb pc p_break ca) in
+  injective_on (ls_matrix_on ja2 jb2 jc2 cols) (length cols).
+Proof.
+  intros ja2 jb2 jc2 pa pb pc p_break ca keep Ha Hb Hc cols.
+  exact (ls_injective_filter _ _ _ _ keep
+           (ls_injective_offered _ _ _ pa pb pc p_break ca (ls_map_full_rank_le5 _ _ _ Ha Hb Hc))).
+Qed.
+
 (* ---------- non-vacuity ---------- *)
 (* 1 -> 1 1 (doubled (2,2,2)): 7 couplings (l, 2s), 7 helicity pairs, a 7 x 7 matrix *)
 Example ls_rank_example_222_cols :
